@@ -1,6 +1,6 @@
 (* C02 Match settlement: each party receives exactly its due, nobody else anything. *)
 From ATS Require Import Prelude Dec DecFacts Uuid Semver Types Contract Tactics Spec Inv InvAsk InstProofs AskProofs
-  BidFacts InvBid InvStep ExitProofs Ledger.
+  BidFacts InvBid InvStep ExitProofs Ledger Recipients Witness.
 
 (* The complete message list of an accepted match (every state, every environment):
      ask fee -> ask-fee account (if non-zero);  bid fee for the fill -> bid-fee account (if non-zero);
@@ -64,3 +64,42 @@ Theorem C02_settlement_exact : forall e st sender funds ask_id bid_id price size
                                                (b_fee b) (b_id b) (b_owner b) (b_price b) (b_quote b))) (st_bids st)).
 Proof. exact match_settles. Qed.
 Print Assumptions C02_settlement_exact.
+
+(* Account by account.  [received d x ms] = what the messages ms deliver to account x in denomination d.  For every
+   accepted match, for EVERY account x and EVERY denomination d:
+     the bid's owner receives [size] of the contract's base and, below the bid's limit, (bid price - price) * size of
+       quote with the refunded share fr of the escrowed fee;
+     the selling side (the ask's owner; the approver of an approved convertible ask, who also receives [size] of the
+       convertible denomination) receives price * size - ask fee of quote;
+     the ask-fee account receives the ask fee, the bid-fee account the bid's fee bf for this fill;
+     nobody else receives anything (for any other x the right-hand side is 0), and accounts that coincide receive the sum.
+   gross = price * size, dy = bid price * size (exact integers); bf + fr is what the fill releases of the escrowed fee:
+   held - F(unspent - dy) (fee_cond). *)
+Theorem C02_each_party_its_due : forall e st sender funds ask_id bid_id price size st' r,
+  InvA st -> InvB st -> 1 <= size -> clean_match st bid_id price size ->
+  execute_match FX e st sender funds ask_id bid_id price size = Ok (st', r) ->
+  exists c a b bp xp gross af dy bf fr,
+    st_cfg st = Some c /\ lookup ask_id (st_asks st) = Some a /\ lookup bid_id (st_bids st) = Some (SlotV3 b) /\
+    price_of (b_price b) bp /\ dec_parse price = Some xp /\
+    gross * 10 ^ d_scale xp = d_mant xp * size /\ dy * 10 ^ d_scale bp = d_mant bp * size /\
+    gross <= dy /\ af <= gross /\ ask_fee_spec_exists c xp size af /\ fee_cond b dy (bf + fr) /\
+    forall x d,
+      received d x (r_msgs r) =
+        sel x (b_owner b) (ind d (cf_base c) size + ind d (c_denom (b_quote b)) ((dy - gross) + fr)) +
+        sel x (seller_side a) (ind d (c_denom (b_quote b)) (gross - af) +
+                               match a_class a with Ready _ _ => ind d (a_base a) size | _ => 0 end) +
+        sel x (fee_acct (cf_ask_fee c)) (ind d (c_denom (b_quote b)) af) +
+        sel x (fee_acct (cf_bid_fee c)) (ind d (c_denom (b_quote b)) bf).
+Proof. exact match_recipients. Qed.
+Print Assumptions C02_each_party_its_due.
+
+(* the match of the witness history (30 of an approved convertible ask at 2 against a bid at 2.5, ask fee 1 %, bid fee
+   10 %), account by account: (quote, base, convertible) received *)
+Example C02_witness_recipients :
+  let msgs := match execute FX w_env (run w_st0 (firstn 3 w_hist)) "exec" [] (ExecuteMatch wA wB "2" 30) with
+              | Ok (_, r) => r_msgs r | Refused _ => [] end in
+  map (fun x => (x, received "q" x msgs, received "base" x msgs, received "cv" x msgs))
+      ["buyer"; "seller"; "appr"; "feea"; "feeb"; "exec"; "self"] =
+  [("buyer", 16, 30, 0); ("seller", 0, 0, 0); ("appr", 59, 0, 30); ("feea", 1, 0, 0); ("feeb", 6, 0, 0);
+   ("exec", 0, 0, 0); ("self", 0, 0, 0)].
+Proof. vm_compute. reflexivity. Qed.
